@@ -451,7 +451,9 @@ class KeywordSearches:
                 ele = NodeCoords.unwrap_node_coords(wrapped_ele)
                 next_path = translated_path + "[{}]".format(idx)
                 next_ancestry = ancestry + [(data, idx)]
-                if ele is not None and scan_node in ele:
+                if (ele is not None and scan_node in ele
+                    and ele[scan_node] is not None
+                ):
                     eval_val = ele[scan_node]
                     if (match_value is None
                         or Searches.search_matches(
@@ -496,7 +498,9 @@ class KeywordSearches:
                         key, translated_path.separator))
                 next_ancestry = ancestry + [(data, key)]
                 if isinstance(val, dict):
-                    if val is not None and scan_node in val:
+                    if (val is not None and scan_node in val
+                        and val[scan_node] is not None
+                    ):
                         eval_val = val[scan_node]
                         if (match_value is None
                             or Searches.search_matches(
@@ -658,7 +662,9 @@ class KeywordSearches:
                 ele = NodeCoords.unwrap_node_coords(wrapped_ele)
                 next_path = translated_path + "[{}]".format(idx)
                 next_ancestry = ancestry + [(data, idx)]
-                if ele is not None and scan_node in ele:
+                if (ele is not None and scan_node in ele
+                    and ele[scan_node] is not None
+                ):
                     eval_val = ele[scan_node]
                     if (match_value is None
                         or Searches.search_matches(
@@ -703,7 +709,9 @@ class KeywordSearches:
                     translated_path + YAMLPath.escape_path_section(
                         key, translated_path.separator))
                 if isinstance(val, dict):
-                    if val is not None and scan_node in val:
+                    if (val is not None and scan_node in val
+                        and val[scan_node] is not None
+                    ):
                         eval_val = val[scan_node]
                         if (match_value is None
                             or Searches.search_matches(
